@@ -40,7 +40,7 @@ CHECKS = {
                  "stream with >= 2 frames; distinct by (processor, log2 fs or length class, fractional/negative f, wrap inside frame / on boundary, "
                  "number of wraps, framing style)."),
         "assumptions": ["reference phase: exact integer reduction of trunc(f)*k mod fs plus the fractional part in long double", "tolerance 1e-7*|x[k]| for the Tuner; exact equality for the delayed real part",
-                        "hilbert() and the 1e-3 quadrature accuracy of the designed filter are pure numerics and are NOT decided by this check"],
+                        "what hilbert() computes and the 1e-3 quadrature accuracy of the designed filter are pure numerics and are NOT decided by this check; only the history independence of hilbert(x) / hilbert(x, n) is (1 run in 4 calls them with 3-6 lengths sharing a power-of-two bucket, long first, and compares every result bitwise-close with the same call in a fresh thread)"],
     },
     "C20": {
         "batches": [("C20", "asan", 4, 20000, 400000)],
@@ -79,7 +79,7 @@ CHECKS = {
                  "multi-frame call, noise)."),
         "assumptions": ["score reference uses rms with 1/n; the reported score is accepted within 5 % of it (the n vs n-1 choice inside rms belongs to C17)",
                         "one preamble per stream (the property covers one); checking stops at the first detection",
-                        "finddelay / gccphat / delayseq / peakloc are pure functions of their arguments and are NOT decided by this check"],
+                        "what finddelay / gccphat / delayseq / peakloc compute is a pure function of their arguments and is NOT decided by this check; only their history independence is (call histories with lengths sharing a power-of-two bucket, each result compared with the same call in a fresh thread)"],
     },
     "C19": {
         "batches": [("C19", "asan", 4, 6000, 1000000), ("C19", "tsan", 4, 2000, 200000)],
@@ -90,7 +90,7 @@ CHECKS = {
         "assumptions": ["reference: the same suffix after rng(s) in a fresh OS thread, and again after a different generated prefix; exact (bitwise) equality",
                         "tsan flavour: the scheduler hands the token over with raw futex words TSan cannot see, so any unsynchronised sharing of generator state "
                         "between threads is reported independent of timing",
-                        "awgn power calibration and snr/sinad/thd accuracy are statistical / numeric properties and are NOT decided by this check"],
+                        "awgn power calibration and snr/sinad/thd accuracy are statistical / numeric properties and are NOT decided by this check; only the history independence of thd / sinad / snr (and of awgn after rng(s)) is: a record measured after longer records of the same FFT size must give the value a fresh thread gives"],
         "extra_stubs": [],
     },
     "C10": {
